@@ -434,7 +434,6 @@ def first_diff(ctx, case, res, tag="d"):
 # ---------------------------------------------------------------------------
 import ast, hashlib
 
-KNOWN_SIG = "ragged-log-after-exception-in-add_point_to_log"
 MIRRORED = {"optimize.py": ["MeritFunctionForMatch", "Optimize", "_set_state", "_bool_array_to_string", "_bool_array_from_string",
                             "Vary", "Target"],
             "jacobian.py": ["JacobianSolver"], "matrixutils.py": ["SVD"]}
@@ -464,11 +463,7 @@ FP_FILE = os.path.join(vlib.VERIF, "tools", "opt_fingerprint.json")
 
 
 def fails_of(res, pid):
-    return [f for f in res.get(pid, []) if f.get("signature") != KNOWN_SIG]
-
-
-def known_of(res, pid):
-    return [f for f in res.get(pid, []) if f.get("signature") == KNOWN_SIG]
+    return list(res.get(pid, []))
 
 
 def shrink_case(case, pid, pred=None):
@@ -592,6 +587,11 @@ def run_property(ctx, pid, n_quick, n_thorough):
         if k:
             ctx.nontrivial.add(k)
     dist = distribution(cases, results)
+    obsn = {}
+    for r in results:
+        for k, v in r.get("observations", {}).items():
+            obsn[k] = obsn.get(k, 0) + v
+    dist["observations_outside_the_properties"] = obsn
     dist["outside_model"] = len(outside)
     dist["outside_model_reasons"] = {}
     for i in outside:
@@ -605,7 +605,6 @@ def run_property(ctx, pid, n_quick, n_thorough):
                     "final_knobs": results[i]["steps"][-1]["obs"]["knobs"], "log_rows": results[i]["steps"][-1]["obs"]["loglen"]}
                    for i in okc[:2]]
     fails = [(i, f) for i, r in enumerate(results) for f in fails_of(r, pid)]
-    knowns = [(i, f) for i, r in enumerate(results) for f in known_of(r, pid)]
     timeouts = [i for i, r in enumerate(results) if r["status"] == "timeout"]
     ctx.obligations.append(("correspondence: the model replays every recorded run (outcome, containers, flags, solver x, "
                             "masks, call counter, every log row) bit for bit", not mism, f"{len(mism)} mismatching of {len(cases) - len(outside)} traces"))
@@ -614,23 +613,10 @@ def run_property(ctx, pid, n_quick, n_thorough):
     ctx.obligations.append(("every exception raised by an operation belongs to the model's classes (ValueError, RuntimeError, "
                             "AssertionError, LinAlgError, the user's exception)", not alien, f"{len(alien)} runs raised another class"))
     ctx.notes.append(f"{len(timeouts)} cases hit the per-case time limit (non-terminating bisection with a non-finite penalty is outside the model)")
-    # ---- known finding (C15 only) ------------------------------------------------------------
-    kf = [e for e in vlib.known_findings(pid) if e.get("kind") == "known" and e.get("signature") == KNOWN_SIG]
-    if kf:
-        w = run_cases([kf[0]["witness"]], workers=1)[0]
-        still = bool(known_of(w, pid))
-        ctx.notes.append("known finding witness re-run: " + ("still fails" if still else "no longer fails"))
-        if still:
-            vlib.known(ctx, kf[0]["text"])
-        elif knowns:
-            fails += knowns
-    elif knowns:
-        fails += knowns        # signature not registered: an ordinary failure
     # ---- decision ------------------------------------------------------------------------------
     if fails:
         i, f = fails[0]
-        sig = f.get("signature")
-        small = shrink_case(cases[i], pid, (lambda r: bool(known_of(r, pid))) if sig == KNOWN_SIG else None)
+        small = shrink_case(cases[i], pid)
         r = run_cases([small], workers=1)[0]
         vlib.violation(ctx, {"kind": "oracle", "what": f["what"], "failures": (r.get(pid) or [f])[:5], "case": small,
                              "outcomes": [s["out"] for s in r["steps"]], "n_failing_cases": len({k for k, _ in fails}),
